@@ -38,7 +38,7 @@ pub const CORPUS: &[&str] = &[
     "2K4k/8/8/8/B1B5/1B1B4/B1B5/1B1B4 w - - 0 1",
 ];
 
-pub const SOURCES: [&str; 13] = [
+pub const SOURCES: [&str; 15] = [
     "sparse",
     "dense",
     "playout",
@@ -52,6 +52,19 @@ pub const SOURCES: [&str; 13] = [
     "corpus_mut",
     "ep_family2",
     "ep_only_reply",
+    "max_mobility",
+    "shuffled_camps",
+];
+
+/// Positions with (near-)maximal numbers of semilegal moves found by earlier maximisation runs.
+pub const MAX_SEEDS: &[&str] = &[
+    "R6R/3Q4/1Q4Q1/4Q3/2Q4Q/Q4Q2/pp1Q4/kBNN1KB1 w - - 0 1",
+    "3Q4/1Q4Q1/4Q3/2Q4R/Q4Q2/3Q4/NR4Q1/kN1BB1K1 w - - 0 1",
+    "1Q3Q2/4Q3/2Q4Q/Q4Q2/3Q4/1Q4Q1/5Q2/k2Q2K1 w - - 0 1",
+    "Q1Q5/3Q2Q1/1Q6/4Q2Q/2Q5/Q4Q2/3Q2pp/1K2Q1k1 w - - 0 1",
+    "1Q4Qq/4Q3/Q1Q4Q/Q4Q2/q2Q4/KQ4Q1/bp2Q3/kBQ4Q w - - 0 1",
+    "Kbq4q/1R2q3/kq4q1/3q4/q4q2/q1q4q/4q3/1q4q1 b - - 0 1",
+    "2QQ3Q/Q4Q2/3Q4/1Q4Q1/4Q3/2Q4Q/Q4Qqr/q1QQnKnk w - - 0 1",
 ];
 
 fn free_sq(cur: &mut Cursor, p: &RefPos, ok: impl Fn(Sq) -> bool) -> Option<Sq> {
@@ -165,6 +178,14 @@ fn src_ep_family(cur: &mut Cursor, p: &mut RefPos, variant2: bool) {
         if let Some(s2) = mk_sq(f - side_df, r5) {
             p.b[s2 as usize] = Some((us, Pc::P));
         }
+    }
+    // edge files: an own pawn on the square that index arithmetic without a file guard would reach
+    // (mark on a5 -> h6, mark on h5 -> a4)
+    if f == 0 && cur.bool() {
+        p.b[mk_sq(7, r5 + 1).unwrap() as usize] = Some((us, Pc::P));
+    }
+    if f == 7 && cur.bool() {
+        p.b[mk_sq(0, r5 - 1).unwrap() as usize] = Some((us, Pc::P));
     }
     // own king geometry
     let mode = cur.below(if variant2 { 8 } else { 6 });
@@ -281,8 +302,13 @@ fn src_castle_family(cur: &mut Cursor, p: &mut RefPos) {
     p.b[4] = Some((Col::W, Pc::K));
     if both_home {
         p.b[60] = Some((Col::B, Pc::K));
-    } else if let Some(s) = free_sq(cur, p, |s| rank_of(s) >= 2) {
-        p.b[s as usize] = Some((Col::B, Pc::K));
+    } else {
+        // anywhere not adjacent to e1, with a bias to the squares that touch the castling path (b2, c2, g2, h2)
+        let near = [9u8, 10, 14, 15];
+        let s = if cur.chance(70) { Some(near[cur.below(4)]) } else { free_sq(cur, p, |s| !adjacent(s, 4)) };
+        if let Some(s) = s {
+            p.b[s as usize] = Some((Col::B, Pc::K));
+        }
     }
     for (c, hr) in [(Col::W, 0i8), (Col::B, 7i8)] {
         if p.b[mk_sq(4, hr).unwrap() as usize] != Some((c, Pc::K)) {
@@ -666,6 +692,61 @@ fn src_ep_only_reply(cur: &mut Cursor, p: &mut RefPos) -> bool {
     predecessor
 }
 
+/// Maximal-mobility positions with a few men displaced (move lists near their capacity).
+fn src_max_mobility(cur: &mut Cursor, p: &mut RefPos) {
+    *p = ref_from_fen(MAX_SEEDS[cur.below(MAX_SEEDS.len())]).unwrap();
+    let n = cur.below(3);
+    for _ in 0..n {
+        let s = cur.below(64);
+        let t = cur.below(64);
+        if let Some(m) = p.b[s] {
+            if p.b[t].is_none() && m.1 != Pc::K && !(m.1 == Pc::P && !pawn_ok(t as Sq)) {
+                p.b[s] = None;
+                p.b[t] = Some(m);
+            }
+        }
+    }
+}
+
+/// The 32 men of the initial array, shuffled inside each side's two home ranks (the occupancy of the
+/// initial position with arbitrary identities: valid, but mostly unreachable).
+fn src_shuffled_camps(cur: &mut Cursor, p: &mut RefPos) {
+    for (c, ranks) in [(Col::W, [0i8, 1]), (Col::B, [7i8, 6])] {
+        let mut men: Vec<Pc> = vec![Pc::K, Pc::Q, Pc::R, Pc::R, Pc::B, Pc::B, Pc::N, Pc::N];
+        men.extend(std::iter::repeat(Pc::P).take(8));
+        // retype a few
+        let k = cur.below(4);
+        for _ in 0..k {
+            let i = 1 + cur.below(15);
+            men[i] = cur.pick(&[Pc::Q, Pc::R, Pc::B, Pc::N, Pc::P]);
+        }
+        // Fisher-Yates driven by the genome
+        for i in (1..men.len()).rev() {
+            let j = cur.below(i + 1);
+            men.swap(i, j);
+        }
+        let mut sqs: Vec<Sq> = Vec::new();
+        for r in ranks {
+            for f in 0..8 {
+                sqs.push(mk_sq(f, r).unwrap());
+            }
+        }
+        // pawns may not stand on the back rank: swap them with non-pawns of the second rank
+        for i in 0..8 {
+            if men[i] == Pc::P {
+                if let Some(j) = (8..16).find(|&j| men[j] != Pc::P) {
+                    men.swap(i, j);
+                } else {
+                    men[i] = Pc::N;
+                }
+            }
+        }
+        for (i, s) in sqs.iter().enumerate() {
+            p.b[*s as usize] = Some((c, men[i]));
+        }
+    }
+}
+
 /// Colour flip: mirror ranks, swap colours, side, rights, mark.
 pub fn flip_colors(p: &RefPos) -> RefPos {
     let mut n = RefPos::empty();
@@ -848,6 +929,11 @@ pub fn gen_position_from(cur: &mut Cursor, sel: usize) -> (RefPos, &'static str)
             keep_ep = !pred;
             own_side = true;
         }
+        13 => {
+            src_max_mobility(cur, &mut p);
+            own_side = true;
+        }
+        14 => src_shuffled_camps(cur, &mut p),
         _ => {
             src_corpus_mut(cur, &mut p);
             keep_ep = true;
